@@ -2209,6 +2209,8 @@ class Interp:
             return getattr(_string, attr)
         if isinstance(base, str) and not attr.startswith('_') and callable(getattr(str, attr, None)):
             return ('boundmethod', base, attr)
+        if isinstance(base, str) and attr in ('__contains__', '__getitem__', '__len__', '__eq__', '__ne__') and not isinstance(base, TextObj):
+            return ('boundmethod', base, attr)
         if isinstance(base, bytes) and not attr.startswith('_') and callable(getattr(bytes, attr, None)):
             return ('boundmethod', base, attr)
         if isinstance(base, _REAL_TYPES) and not attr.startswith('_') and callable(getattr(base, attr, None)):
@@ -4261,6 +4263,8 @@ class Interp:
             if meth == 'replace' and len(args) >= 2 and isinstance(args[0], str) and len(args[0]) == 1 and not args[0].isalpha() \
                and not isinstance(args[0], M._StringLetters):
                 return recv            # removing a character that is not a letter from the set of all letters
+            if meth == '__contains__' and len(args) == 1 and isinstance(args[0], str) and not isinstance(args[0], M._StringLetters) and len(args[0]) == 1:
+                return args[0].isalpha()           # membership of one character in the letters of the alphabet(s)
             return TOP
         if isinstance(recv, _REAL_TYPES):
             # methods of library objects built from constants (compiled patterns, string templates): the library's own semantics
@@ -4280,6 +4284,15 @@ class Interp:
                     self._pending_exc = type(e).__name__
                     return TOP
             return TOP
+        if isinstance(recv, M._StringLetters) and meth == '__contains__' and len(args) == 1 and isinstance(args[0], str) and not isinstance(args[0], M._StringLetters):
+            return len(args[0]) == 1 and args[0].isalpha() if len(args[0]) == 1 else TOP      # the letters of the alphabet(s): membership of one character
+        if isinstance(recv, str) and not isinstance(recv, M._StringLetters) and meth in ('__contains__', '__getitem__', '__len__', '__eq__', '__ne__') \
+           and all(_plain(a) and not isinstance(a, M._StringLetters) for a in args) and not kwargs:
+            try:
+                return getattr(str(recv), meth)(*[str(a) if isinstance(a, TextObj) else a for a in args])
+            except Exception as e:
+                self._pending_exc = type(e).__name__
+                return TOP
         if isinstance(recv, str):
             if any(isinstance(a, Iter) for a in args):
                 conv = []
